@@ -34,6 +34,9 @@ func upSpec(r *rng, i int, kind string) plan.UpstreamSpec {
 	default:
 		u.Addr = kind + "://" + addr
 	}
+	if kind == "quic" && r.p(0.5) {
+		u.QuicMaxStreams = []int{2, 3, 5}[r.intn(3)]
+	}
 	switch kind {
 	case "tls", "tls+pipeline", "https", "quic", "h3":
 		u.TLS = "good"
